@@ -103,6 +103,8 @@ pub mod driver {
         }
     }
     /// R16 helpers: console output (no effect on any contract); `OPTION.as_ref().ok_or(())` / `OPTION.as_ref().unwrap()`
+    /// what parse_command makes of an argument vector (its content is the subject of U-command)
+    pub uninterp spec fn command_of(args: Seq<String>) -> Option<Command>;
     #[verifier::external_body]
     pub fn verif_println() { }
     pub fn verif_some_or_err<T>(o: &Option<T>) -> (r: Result<&T, ()>) ensures (match r { Ok(x) => *o == Some(*x), Err(_) => *o is None }) { match o { Some(x) => Ok(x), None => Err(()) } }
